@@ -16,7 +16,13 @@ import ttconv.style_properties as s
 from vt.gen_model import ALL_PROPS, PROP
 
 U = s.LengthType.Units
-INHERITED = frozenset(n for n in ALL_PROPS if PROP[n].is_inherited)
+# transcribed from the "Inherited:" rows of TTML2 10.2 (tts:*), IMSC 1.1 (itts:fillLineGap) and EBU-TT-D (ebutts:linePadding,
+# ebutts:multiRowAlign); deliberately not read from ttconv's is_inherited flags, which are part of what C03 judges
+INHERITED = frozenset([
+  "Color", "Direction", "FillLineGap", "FontFamily", "FontSize", "FontStyle", "FontWeight", "LineHeight", "LinePadding", "MultiRowAlign",
+  "RubyAlign", "RubyPosition", "RubyReserve", "Shear", "TextAlign", "TextCombine", "TextDecoration", "TextEmphasis", "TextOutline",
+  "TextShadow", "Visibility", "WrapOption"])
+assert INHERITED <= set(ALL_PROPS)
 VERTICAL = (s.WritingModeType.tblr, s.WritingModeType.tbrl)
 UNKNOWN = "<unknown>"
 DEFAULT_REGION_ID = "default_region"
